@@ -1250,6 +1250,10 @@ def correspondence(ctx, want_driver=True):
         part_D(ctx, lines, recs, seedval)
         part_F(ctx, seedval)
         part_G(ctx, seedval)
+        from props import _c06_extra as X
+        X.part_H(ctx, seedval)
+        X.part_I(ctx, seedval)
+        X.part_J(ctx, seedval)
         if want_driver:
             part_A(ctx, lines, recs)
             part_C(ctx, lines, recs, seedval)
@@ -1259,7 +1263,7 @@ def correspondence(ctx, want_driver=True):
     if want_driver:
         compare_driver(ctx, lines, recs)
     # run.py prints the first 8 distinct keys: one representative per defect class first
-    prio = ["active_dims:column-order", "aliasing:", "active_dims:column-selection", "kernel-call", "kernel-getitem:active_dims", "expand_batch:active_dims", "getitem:multiout", "getitem:batch-slice-of-broadcast-dim",
+    prio = ["history:", "wrapper-batch:", "ldb:", "active_dims:column-order", "aliasing:", "active_dims:column-selection", "kernel-call", "kernel-getitem:active_dims", "expand_batch:active_dims", "getitem:multiout", "getitem:batch-slice-of-broadcast-dim",
             "repeat:", "diag:", "transpose:", "blocks:", "lazy-vs-eager", "getitem:values", "getitem:empty", "kernel-getitem",
             "expand_batch", "rejects-valid-index", "linear_operator"]
 
@@ -1286,6 +1290,18 @@ def replay(ctx, payload):
     try:
         c = payload["case"]
         seedval = payload.get("seed", 0)
+        if c.get("part") in ("history", "wrapper-batch", "ldb"):
+            from props import _c06_extra as X
+            sub = Ctx0()
+            if c["part"] == "history":
+                X.part_H(sub, seedval, only=(c["kernel"], c["kernel_batch"], c["setting"]))
+            elif c["part"] == "wrapper-batch":
+                X.part_I(sub, seedval, only=(c["kernel"], c["kernel_batch"], c["x_batch"]))
+            else:
+                X.part_J(sub, seedval, only=(c["kernel"], c["kernel_batch"], c["x_batch"]))
+            return not any(f[2].get("what") == c.get("what") and f[2].get("lazy") == c.get("lazy")
+                           and f[2].get("index_text") == c.get("index_text") and f[2].get("phase") == c.get("phase")
+                           for f in sub.failures3)
         if c.get("part") in ("active-dims-order", "alias"):
             sub = Ctx0()
             if c["part"] == "active-dims-order":
